@@ -55,7 +55,7 @@ def build(repo, findings):
     assert(pre_ext.len() == 0);
     assert forall|i: int| 0 <= i < args0.len() implies expanded_values@[i] == args0[i] by { assert(cloned::<String>(args0[i], expanded_values@[i])); }
     assert(expanded_values@ =~= args0);
-}''', fn_name=fn)
+}''', fn_name=fn, optional=True)
     f.before_loop(fn, 1, 'let ghost vals = expanded_values@;\nproof { assert(%s == (St::Loop { vals, i: 0, assigned: false, code: ExecutionExitCode::Success })); }' % (RUN % 'shell'))
     f.loop(1, fn_name=fn, iter_name='it', invariant_except_break=[
         C('aux', 'it.index@ + it.iter.remaining().len() == vals.len()'),
